@@ -58,6 +58,7 @@ class Ctx:
         self.violations = []
         self.known_hits = []
         self.notes = []
+        self.extras = []
         self._nontrivial = set()
         self.findings = load_findings()
 
@@ -95,6 +96,12 @@ class Ctx:
         self.notes.append(s)
         print('NOTE', s, flush=True)
 
+    def extra(self, what):
+        """A mismatch found by a specification-growth leg, i.e. about behaviour OUTSIDE the statement of this property:
+        recorded in the evidence and printed, but not a verdict (it must not raise an alarm for a property that holds)."""
+        self.extras.append(what[:600])
+        print('EXTRA-MISMATCH (behaviour outside the statement of %s, not a verdict): %s' % (self.pid, what[:400]), flush=True)
+
     # -- verdicts --------------------------------------------------------
     def violation(self, what, replay):
         """Report a violation unless it matches an *open* known finding."""
@@ -126,6 +133,8 @@ class Ctx:
         self.cov['distinct_nontrivial'] = len(self._nontrivial)
         self.cov['known_findings_hit'] = self.known_hits
         self.cov['notes'] = self.notes
+        if self.extras:
+            self.cov['extra_mismatches_outside_the_property'] = self.extras[:20]
         # open known findings are always announced (they are findings, not alarms)
         for f in self.findings:
             if f['property'] == self.pid and f.get('status') == 'open' and f['id'] not in self.known_hits:
@@ -318,6 +327,7 @@ def coverage_counts(out):
 NB_SEEDS = 64   # bucket seeds in the *Rec modules (see RInit there)
 # NB: TLC pretty-prints long tuples over several lines ("<< "BADREC",\n   1,\n   "clause" >>"): whitespace tolerant
 _RE_BAD = re.compile(r'<<\s*"BADREC",\s*(\d+),\s*"([^"]*)"')
+_RE_EVALERR = re.compile(r'Error: Evaluating invariant \w+ failed\.[\s\S]*?\bri = (\d+)')
 
 
 def validate_records(ctx, module, records, cfgname=None, constants=None, invariant='RecOK',
@@ -331,14 +341,27 @@ def validate_records(ctx, module, records, cfgname=None, constants=None, invaria
     bad = []
     nrec = 0
     for c0 in range(0, len(records), chunk):
-        part = records[c0:c0 + chunk]
+        part = list(records[c0:c0 + chunk])
         fn = os.path.join(ctx.work, 'recs-%s-%d.json' % (module, c0))
-        with open(fn, 'w') as f:
-            json.dump(part, f, separators=(',', ':'), default=_jd)
         cfg = os.path.join(ctx.work, '%s-rec.cfg' % module)
         write_cfg(cfg, init=init, next_=next_, invariants=[invariant], constants=constants)
-        res = run_tlc(ctx, module, cfg, env={'RECS_FILE': fn}, name=(name or module) + ':records',
-                      kind='records', workers=workers)
+        for attempt in range(6):
+            with open(fn, 'w') as f:
+                json.dump(part, f, separators=(',', ':'), default=_jd)
+            res = run_tlc(ctx, module, cfg, env={'RECS_FILE': fn}, name=(name or module) + ':records',
+                          kind='records', workers=workers)
+            # A record whose VALUE has the wrong shape for the specification (e.g. a number where a sequence is expected:
+            # the real routine returned something of another kind) makes TLC stop with an evaluation error on that
+            # record.  That is a disagreement between code and specification, not a failure of the machinery: the
+            # record is reported like any other bad record, taken out, and the rest of the chunk is validated.
+            m = _RE_EVALERR.search(res['out']) if res['rc'] != 0 else None
+            if m and attempt < 5 and 0 < int(m.group(1)) <= len(part):
+                bad.append((part.pop(int(m.group(1)) - 1), 'result_has_another_shape_than_the_specification_value'))
+                continue
+            break
+        if res['rc'] != 0 and bad and _RE_EVALERR.search(res['out']):
+            os.unlink(fn)
+            break            # several such records: enough is reported, the remainder of this run is not validated
         if res['rc'] != 0 or res['error'] or res['distinct'] != len(part) + NB_SEEDS:
             tail = '\n'.join(res['out'].splitlines()[-40:])
             raise MachineryError('record validation %s: rc=%s distinct=%s expected=%s\n%s' % (
